@@ -942,10 +942,9 @@ class ServerSSM(SSM):
             else:
                 raise RuntimeError("invalid segmentation supported in device info")
 
-        # decode the maximum that the client can receive in one APDU, and if
-        # there is a value in the device information then use that one because
-        # it came from reading device object property value or from an I-Am
-        # message that was received
+        # decode the maximum that the client can receive in one APDU, the
+        # request being answered is what limits the response, a value cached
+        # from an earlier I-Am may be out of date
         try:
             self.maxApduLengthAccepted = decode_max_apdu_length_accepted(apdu.apduMaxResp)
         except ValueError:
@@ -954,11 +953,6 @@ class ServerSSM(SSM):
             abort = self.abort(AbortReason.other)
             self.response(abort)
             return
-        if self.device_info and self.device_info.maxApduLengthAccepted is not None:
-            if self.device_info.maxApduLengthAccepted < self.maxApduLengthAccepted:
-                if _debug: ServerSSM._debug("    - apduMaxResp encoding error")
-            else:
-                self.maxApduLengthAccepted = self.device_info.maxApduLengthAccepted
         if _debug: ServerSSM._debug("    - maxApduLengthAccepted: %r", self.maxApduLengthAccepted)
 
         # save the number of segments the client is willing to accept in the ack,
